@@ -3,6 +3,7 @@ package symex
 import (
 	"fmt"
 	"os"
+	"sort"
 	"go/token"
 	"go/types"
 	"math/big"
@@ -54,6 +55,9 @@ func (in *Interp) step(st *State, fr *Frame, ins ssa.Instruction) {
 		in.set(fr, x, sv.F[x.Field])
 	case *ssa.FieldAddr:
 		p := in.ptrOf(st, in.get(st, fr, x.X), "FieldAddr")
+		if len(in.Cfg.Guards) > 0 {
+			in.guardCheck(st, fr, x, p)
+		}
 		in.set(fr, x, PtrV{Obj: p.Obj, Path: extPath(p.Path, PathEl{Field: x.Field})})
 	case *ssa.Index:
 		a := in.get(st, fr, x.X)
@@ -531,7 +535,7 @@ func multipleOfPow2(t *Term) uint {
 	return 0
 }
 
-func (in *Interp) bitAnd(a, b *Term) *Term {
+func (in *Interp) bitAnd(st *State, a, b *Term) *Term {
 	ac, aok := a.ConstInt()
 	bc, bok := b.ConstInt()
 	if aok && bok {
@@ -566,7 +570,23 @@ func (in *Interp) bitAnd(a, b *Term) *Term {
 			return Mul(BigC(pow2(l)), EMod(EDiv(a, BigC(pow2(l))), BigC(pow2(k))))
 		}
 	}
-	panic(unsupported("bitwise AND of symbolic operands"))
+	// both symbolic and non-negative: sound over-approximation  0 <= a&b <= min(a,b)  through a fresh variable
+	if !aok && !bok && st != nil && !st.Spec && in.Cfg.Fixed == nil && in.provablyNonNeg(st, a) && in.provablyNonNeg(st, b) {
+		hi := rmin(a.Hi, b.Hi)
+		if a.Hi == nil {
+			hi = b.Hi
+		} else if b.Hi == nil {
+			hi = a.Hi
+		}
+		in.freshN++
+		r := Var(SInt, fmt.Sprintf("band_%d", in.freshN), new(big.Rat), hi)
+		in.stubSeen["assume: x&y over-approximated by a fresh value in [0, min(x,y)]"] = true
+		in.Sol.Assert(mk(SBool, "<=", IntC(0), r))
+		in.Sol.Assert(mk(SBool, "<=", r, a))
+		in.Sol.Assert(mk(SBool, "<=", r, b))
+		return r
+	}
+	panic(unsupported(fmt.Sprintf("bitwise AND of symbolic operands %s [%v,%v] & %s [%v,%v]", clip(a.String(), 120), a.Lo, a.Hi, clip(b.String(), 120), b.Lo, b.Hi)))
 }
 
 func (in *Interp) bitOr(a, b *Term) *Term {
@@ -669,7 +689,7 @@ func (in *Interp) binop(st *State, fr *Frame, x *ssa.BinOp) Value {
 		case token.GEQ:
 			return Ge(at, btm)
 		case token.AND:
-			return in.wrap(st, in.bitAnd(at, btm), rt)
+			return in.wrap(st, in.bitAnd(st, at, btm), rt)
 		case token.OR:
 			return in.wrap(st, in.bitOr(at, btm), rt)
 		case token.XOR:
@@ -686,7 +706,7 @@ func (in *Interp) binop(st *State, fr *Frame, x *ssa.BinOp) Value {
 				nb := new(big.Int).AndNot(mask, new(big.Int).And(bc, mask))
 				// operate on the unsigned image
 				ua := EMod(at, BigC(pow2(uint(bits))))
-				return in.wrap(st, in.bitAnd(ua, BigC(nb)), rt)
+				return in.wrap(st, in.bitAnd(st, ua, BigC(nb)), rt)
 			}
 			panic(unsupported("AND_NOT of symbolic operand"))
 		case token.SHL:
@@ -1523,4 +1543,119 @@ func (in *Interp) wrap(st *State, t *Term, b *types.Basic) *Term {
 		return t
 	}
 	return w
+}
+
+func guardedField(guards []Guard, t types.Type, field int) (*Guard, string, int) {
+	pt, ok := t.Underlying().(*types.Pointer)
+	if !ok {
+		return nil, "", -1
+	}
+	nt, ok := pt.Elem().(*types.Named)
+	if !ok {
+		return nil, "", -1
+	}
+	stt, ok := nt.Underlying().(*types.Struct)
+	if !ok {
+		return nil, "", -1
+	}
+	for gi := range guards {
+		g := &guards[gi]
+		if nt.Obj().Name() != g.Type {
+			continue
+		}
+		fname := stt.Field(field).Name()
+		for _, f := range g.Fields {
+			if f == fname {
+				for i := 0; i < stt.NumFields(); i++ {
+					if stt.Field(i).Name() == g.Mutex {
+						return g, fname, i
+					}
+				}
+			}
+		}
+	}
+	return nil, "", -1
+}
+
+// guardCheck: an access to a guarded field must happen with the object's mutex held (ghost bit).
+func (in *Interp) guardCheck(st *State, fr *Frame, x *ssa.FieldAddr, p PtrV) {
+	g, fname, mi := guardedField(in.Cfg.Guards, x.X.Type(), x.Field)
+	if g == nil {
+		return
+	}
+	// exempt: constructors and harness code
+	for i := len(st.Frames) - 1; i >= 0; i-- {
+		f := st.Frames[i].Fn
+		if i == len(st.Frames)-1 {
+			if isVerifFile(in, f) {
+				return
+			}
+			for _, e := range g.Exempt {
+				if f.Name() == e {
+					return
+				}
+			}
+		}
+	}
+	in.Res.GuardChecks++
+	mp := PtrV{Obj: p.Obj, Path: extPath(p.Path, PathEl{Field: mi})}
+	if st.Mutex[lockKey(mp)] {
+		return
+	}
+	if st.Spec {
+		panic(specAbort{"guard"})
+	}
+	site := in.posOf(x, fr)
+	in.obligation(st, "lock:unguarded-access:"+g.Type+"."+fname+"@"+fr.Fn.Name(), "discipline", site, False,
+		"access to "+g.Type+"."+fname+" in "+fr.Fn.String()+" without holding "+g.Mutex)
+}
+
+// GuardAccessors lists every function of pkg that touches a guarded field (SSA referrer scan).
+func GuardAccessors(pkg *ssa.Package, guards []Guard) []string {
+	seen := map[string]bool{}
+	var visit func(fn *ssa.Function)
+	visit = func(fn *ssa.Function) {
+		for _, b := range fn.Blocks {
+			for _, ins := range b.Instrs {
+				switch x := ins.(type) {
+				case *ssa.FieldAddr:
+					if g, f, _ := guardedField(guards, x.X.Type(), x.Field); g != nil {
+						seen[fn.String()+" -> "+g.Type+"."+f] = true
+					}
+				}
+			}
+		}
+		for _, an := range fn.AnonFuncs {
+			visit(an)
+		}
+	}
+	for _, m := range pkg.Members {
+		switch x := m.(type) {
+		case *ssa.Function:
+			visit(x)
+		case *ssa.Type:
+			for _, t := range []types.Type{x.Type(), types.NewPointer(x.Type())} {
+				ms := pkg.Prog.MethodSets.MethodSet(t)
+				for i := 0; i < ms.Len(); i++ {
+					if fn := pkg.Prog.MethodValue(ms.At(i)); fn != nil && fn.Pkg == pkg {
+						visit(fn)
+					}
+				}
+			}
+		}
+	}
+	var out []string
+	for k := range seen {
+		out = append(out, k)
+	}
+	sort.Strings(out)
+	return out
+}
+
+func (in *Interp) provablyNonNeg(st *State, t *Term) bool {
+	if t.Lo != nil && t.Lo.Sign() >= 0 {
+		return true
+	}
+	in.Res.BranchQ++
+	return in.Sol.CheckWith(Lt(t, IntC(0))) == Unsat
 }
